@@ -55,7 +55,7 @@ def generate(rng, tier):
     cls = rng.choice(["vector", "frame", "frame", "geojson", "lod"])
     settings = {}
     if rng.random() < 0.3: settings["PRINT_FLOAT_PRECISION"] = rng.choice([0, 2, 10])
-    if rng.random() < 0.2: settings["PRINT_THOUSAND_SEPARATOR"] = rng.choice([",", " ", "_"])
+    if rng.random() < 0.2: settings["PRINT_THOUSAND_SEPARATOR"] = rng.choice([",", " ", "_", "'", ".", "\u2009"])
     if rng.random() < 0.2: settings["PRINT_TRUNCATE_WIDTH"] = rng.choice([1, 5, 100])
     if rng.random() < 0.2: settings["PRINT_MAX_ROWS"] = rng.choice([1, 3])
     if rng.random() < 0.2: settings["PRINT_MAX_ELEMENTS"] = rng.choice([0, 2, 5])
